@@ -18,12 +18,19 @@ CLAIMED = {
                      "get_unchecked/unwrap_unchecked/unreachable_unchecked is a checked access in the model), also from deserialized "
                      "worlds; views never select a column other than their component's; at the cell level the in-place column "
                      "operations keep the first `length` cells of every column live (what makes from_raw_parts(ptr,length,cap) "
-                     "sound) and releasing such a store drops nothing twice. PARTIAL, carried by the correspondence on the real "
-                     "code: an auditing global allocator checks after every operation that blocks are released once, with the "
-                     "layout they were created with, and that every block obtained during a history is returned once all worlds are "
-                     "dropped (registries with zero-sized, over-aligned, heap-owning, 1/2/4/8/16-byte components); freed library "
-                     "blocks are poisoned and quarantined. No theorem about allocation layouts or the packed row buffer.",
-                technique="Rocq proof that Inv excludes every unchecked-access failure and that the cell-level column operations preserve a clean store + allocator audit of the real library on generated histories",
+                     "sound) and releasing such a store drops nothing twice; at the allocation level (coq/Model/Heap.v) a store of any "
+                     "number of columns kept as raw parts (address, capacity) + length over one heap, under every history of push/"
+                     "reserve/shrink_to_fit/set_len/free and every answer of the growth oracle: every Vec::from_raw_parts finds a live "
+                     "block of its element type and exactly that capacity (so release/resize use the creation layout), no block is "
+                     "released twice, no two columns share a block, every block has an owner, and releasing every column empties "
+                     "the heap -- given the pointer/capacity write-back after each capacity-changing call, which is regenerated from "
+                     "the source per call site (coq/Gen/Facts.v fact_wb_*) and shown necessary by three refuting histories. PARTIAL, "
+                     "carried by the correspondence on the real code: an auditing global allocator checks after every operation that "
+                     "blocks are released once, with the size/alignment they were created with, and that every block obtained during "
+                     "a history is returned once all worlds are dropped (registries with zero-sized, over-aligned, heap-owning, "
+                     "1/2/4/8/16-byte components); freed library blocks are poisoned and quarantined. No theorem about byte sizes/"
+                     "alignments of concrete component types or the packed row buffer offsets.",
+                technique="Rocq proof that Inv excludes every unchecked-access failure, that the cell-level column operations preserve a clean store and that the raw-parts column store never misuses or leaks a heap block (write-back facts regenerated from the source) + allocator audit of the real library on generated histories",
                 ref="DESIGN.md §7 C05"),
     "C17": dict(engine="world-histories",
                 text="Cell-level model with a fault parameter (the k-th Drop callback of an operation panics, the operation stops where "
